@@ -104,7 +104,8 @@ def _prepare(d):
             frame = U.make_frame(lib, cols + ["parent", "child"], [[a.get(k) for k in cols] + [p, c] for c, p, a in rows],
                                  str_cols=("child", "parent"))
             kw = {"child_col": "child", "parent_col": "parent"}
-        same = lambda x, y: list(x.columns) == list(y.columns) and bool(x.equals(y))
+        same = lambda x, y: (list(x.columns) == list(y.columns) and bool(x.equals(y))
+                             and dict(getattr(x, "attrs", {}) or {}) == dict(getattr(y, "attrs", {}) or {}))
         if lib == "pl":
             return (lambda: bigtree.polars_to_tree_by_relation(frame, allow_duplicates=d["dupok"], **kw)), frame, same
         return (lambda: bigtree.dataframe_to_tree_by_relation(frame, allow_duplicates=d["dupok"], **kw)), frame, same
